@@ -35,7 +35,7 @@ def dft(x, sign=1):
 
     Up to FSUM_MAX_N points: pure Python with correctly rounded sums.  Longer
     inputs: the same twiddle table (one cmath.exp per residue), gathered into
-    the n x n matrix and multiplied with numpy (plain float accumulation: error
+    the n x n matrix and multiplied with numpy (pairwise float accumulation: error
     about n * 1e-16 relative, far inside the tolerance of the check) - the pure
     Python loop costs 0.1-0.5 s per case there, too close to the case timeout
     on a busy machine."""
@@ -47,7 +47,10 @@ def dft(x, sign=1):
         import numpy as np
         idx = np.outer(np.arange(n), np.arange(n)) % n
         mat = np.array(w, dtype=np.complex128)[idx]
-        return [complex(v) for v in mat @ np.array(x, dtype=np.complex128)]
+        # elementwise product + pairwise summation: no BLAS call (threaded BLAS
+        # under forked, oversubscribed workers stalled for > 20 s)
+        prod = mat * np.array(x, dtype=np.complex128)[None, :]
+        return [complex(v) for v in prod.sum(axis=1)]
     out = []
     for k in range(n):
         terms = [w[(k * j) % n] * x[j] for j in range(n)]
